@@ -6,9 +6,13 @@
  * file, you can obtain one at https://mozilla.org/MPL/2.0/.
  */
 
+#include <algorithm>
 #include <iostream>
 
 #include "writer.h"
+
+/** Upper bound for the on-stack buffer receiving compressed data */
+static constexpr std::size_t MAX_SCRATCH_SIZE = 65536;
 
 void CDNS::GzipCborOutputWriter::write(const char* p, std::size_t size)
 {
@@ -48,7 +52,7 @@ void CDNS::GzipCborOutputWriter::close()
 
 int CDNS::GzipCborOutputWriter::write_gzip(std::size_t in_size, int action)
 {
-    std::size_t size = in_size + in_size / 3 + 128;
+    std::size_t size = std::min<std::size_t>(in_size + in_size / 3 + 128, MAX_SCRATCH_SIZE);
     uint8_t buff[size];
 
     // Set output buffer
@@ -101,7 +105,7 @@ void CDNS::XzCborOutputWriter::close()
 
 lzma_ret CDNS::XzCborOutputWriter::write_lzma(std::size_t in_size, lzma_action action)
 {
-    std::size_t size = in_size + in_size / 3 + 128;
+    std::size_t size = std::min<std::size_t>(in_size + in_size / 3 + 128, MAX_SCRATCH_SIZE);
     uint8_t buff[size];
 
     // Set output buffer
